@@ -7,6 +7,17 @@
 
 #include <cmr/env.h>
 
+/* Storage class for the static fallback buffers of the *String() functions, such that distinct threads do not share them. */
+#if defined(__STDC_VERSION__) && __STDC_VERSION__ >= 201112L && !defined(__STDC_NO_THREADS__)
+#define CMR_THREAD_LOCAL _Thread_local
+#elif defined(__GNUC__) || defined(__clang__)
+#define CMR_THREAD_LOCAL __thread
+#elif defined(_MSC_VER)
+#define CMR_THREAD_LOCAL __declspec(thread)
+#else
+#define CMR_THREAD_LOCAL
+#endif
+
 #if defined(CMR_DEBUG)
 
 static inline
